@@ -7,7 +7,7 @@
  "link_repo": ["type.c"],
  "unwind": 14,
  "kind": "bounded",
- "bound": "quick: objects of 1..8 bytes with up to 2 initialisers (thorough: 1..12 bytes, up to 3), each a scalar constant of 1/2/4/8 bytes, a bit-field inside a 1/2/4-byte unit, or (variant str) one char16_t string of up to 3 elements followed by one scalar",
+ "bound": "quick: objects of 1..8 bytes with up to 2 initialisers (thorough: 1..12 bytes, up to 2; three initialisers did not finish in 30 min), each a scalar constant of 1/2/4/8 bytes, a bit-field inside a 1/2/4-byte unit, or (variant str) one char16_t string of up to 3 elements followed by one scalar",
  "variants": {"n0": ["-DV_SCALARS","-DV_N=0"], "n1": ["-DV_SCALARS","-DV_N=1"], "n2": ["-DV_SCALARS","-DV_N=2"], "str1": ["-DV_STR","-DV_N=1"], "str2": ["-DV_STR","-DV_N=2"]},
  "canary_variant": "n2",
  "timeout": 300, "mem_gb": 10, "replay": false,
